@@ -6,5 +6,5 @@ CONSTANTS
     MaxTick = 4
 SPECIFICATION Spec
 VIEW View
-INVARIANTS TokenValidOnlyBetween LogoutIsPersistent ExpiryIsPersistent RestartChangesNothing LiveIsPresent LifetimeBounded
+INVARIANTS TokenValidOnlyBetween LogoutIsPersistent LogoutReturnsDone ExpiryIsPersistent RestartChangesNothing LiveIsPresent LifetimeBounded
 PROPERTIES RestartIsNoOp
